@@ -125,7 +125,10 @@ def cmd_sample(n):
     shutil.rmtree("/tmp/mut-t-base", ignore_errors=True)
 
 
-def worker(k, todo, done_ids):
+RESULTS = "results.jsonl"
+
+
+def worker(k, todo, done_ids, suite=True):
     wt, target = "/tmp/mut-w%d" % k, "/tmp/mut-t%d" % k
     subprocess.run(["git", "-C", "/repo", "worktree", "remove", "--force", wt], capture_output=True)
     subprocess.check_call(["git", "-C", "/repo", "worktree", "add", "-q", "--detach", wt, "HEAD"])
@@ -153,11 +156,11 @@ def worker(k, todo, done_ids):
                     if answers(os.path.join(target, "release", "mrs-harness"), p) != base[p]:
                         killed.append(p)
                 rec["killed_by"] = killed
-                if not killed:
+                if not killed and suite:
                     rc, out, err = sh(["nice", "-n", "15", "cargo", "test", "--offline", "--quiet"], 1800, cwd=wt,
                                       env={"CARGO_TARGET_DIR": target + "-suite", "CARGO_NET_OFFLINE": "true", "CARGO_BUILD_JOBS": "4", "RUSTFLAGS": "-Awarnings"})
                     rec["suite_passes"] = (rc == 0)
-            with open(os.path.join(B, "results.jsonl"), "a") as fh:
+            with open(os.path.join(B, RESULTS), "a") as fh:
                 fh.write(json.dumps(rec) + "\n")
     finally:
         subprocess.run(["git", "-C", "/repo", "worktree", "remove", "--force", wt], capture_output=True)
@@ -179,8 +182,35 @@ def cmd_run(k, jobs, seed):
         list(ex.map(lambda kk: worker(kk, todo[kk::jobs], done), range(jobs)))
 
 
-def cmd_report():
+def cmd_confirm(jobs):
+    """second pass over the survivors of results.jsonl with the CURRENT sample (take a larger one first): results2.jsonl"""
     rs = [json.loads(l) for l in open(os.path.join(B, "results.jsonl"))]
+    surv = [r for r in rs if r["compile"] and not r["killed_by"] and r.get("suite_passes")]
+    by_id = {}
+    for (f, i, a, b, rep, rule) in sites():
+        by_id["%s:%d:%d:%s" % (f, i + 1, a, rep)] = (f, i, a, b, rep, rule)
+    todo = [(r["id"], by_id[r["id"]]) for r in surv if r["id"] in by_id]
+    done = set()
+    global RESULTS
+    RESULTS = "results2.jsonl"
+    if os.path.exists(os.path.join(B, RESULTS)):
+        done = {json.loads(l)["id"] for l in open(os.path.join(B, RESULTS))}
+    print(len(surv), "survivors;", len(todo), "to re-run;", len(done), "already done")
+    with ThreadPoolExecutor(max_workers=jobs) as ex:
+        list(ex.map(lambda kk: worker(kk, todo[kk::jobs], done, suite=False), range(jobs)))
+
+
+def cmd_report():
+    if os.path.exists(os.path.join(B, "results2.jsonl")) and "first" not in sys.argv:
+        rs2 = {json.loads(l)["id"]: json.loads(l) for l in open(os.path.join(B, "results2.jsonl"))}
+        rs = []
+        for l in open(os.path.join(B, "results.jsonl")):
+            r = json.loads(l)
+            if r["id"] in rs2 and rs2[r["id"]].get("compile"):
+                r["killed_by"] = rs2[r["id"]]["killed_by"]
+            rs.append(r)
+    else:
+        rs = [json.loads(l) for l in open(os.path.join(B, "results.jsonl"))]
     comp = [r for r in rs if r["compile"]]
     surv = [r for r in comp if not r["killed_by"]]
     print("%d tried, %d compiled, %d killed by the streams, %d survived (%d of them also pass the crate's suite)" %
@@ -198,5 +228,7 @@ if __name__ == "__main__":
         cmd_sample(int(sys.argv[2]) if len(sys.argv) > 2 else 4000)
     elif c == "run":
         cmd_run(int(sys.argv[2]), int(sys.argv[3]) if len(sys.argv) > 3 else 3, int(sys.argv[4]) if len(sys.argv) > 4 else 1)
+    elif c == "confirm":
+        cmd_confirm(int(sys.argv[2]) if len(sys.argv) > 2 else 4)
     elif c == "report":
         cmd_report()
